@@ -512,6 +512,13 @@ def magnitude(pt):
     if pt.mech not in ("LaplaceTruncated", "LaplaceFolded", "LaplaceBoundedDomain"):
         return 0.0, 0.0
     b = pt.meas.get("stored", pt.meas.get("scale")) or 0.0
+    if not (b > 0 and math.isfinite(b)) and pt.mech != "LaplaceBoundedDomain":
+        # the sampler's scale could not be measured (noise below the resolution of the outputs): the coded expressions
+        # still round at the size of the scale they compute
+        try:
+            b = K2.lap_expected(p)
+        except (ZeroDivisionError, ValueError):
+            b = 0.0
     if not (b > 0 and math.isfinite(b)):
         return 0.0, 0.0
     fin = [abs(x) for x in (p["lower"], p["upper"]) if math.isfinite(x)]
@@ -545,6 +552,12 @@ def compare(ctx, pt, outs):
         ctx.disagree(f"moments.{pt.mech}", {"params": pt.params, "value": pt.value}, outs[0], pt.rep)
         return False
     mv = [b2f(int(x)) for x in vals]
+    if pt.mech == "LaplaceBoundedDomain" and not (pt.meas.get("stored", 0.0) >= 0 and math.isfinite(pt.meas.get("stored", 0.0))):
+        # a negative / non-finite calibrated scale (outside the mechanism's feasible region, e.g. epsilon = 0 with a tiny
+        # delta): exp((lower - v)/s) overflows in the closed forms; nothing meaningful to compare (C02's business)
+        ctx.count("bounded_domain_infeasible_scale")
+        ctx.boundary_skipped += 1
+        return True
     rb, rv, rm = (pt.rep[k][0] for k in ("bias", "variance", "mse"))
     mag = magnitude(pt)
     model = {}
@@ -662,7 +675,8 @@ def direct(ctx, pt):
     if rm[0] is not None and rb[0] is not None and rv[0] is not None:
         tmse = tv + tb * tb
         r = float(rm[0])
-        if r == r and not math.isinf(r) and within(float(rv[0]), tv) and within(float(rb[0]), tb) and not within(r, tmse):
+        if r == r and not math.isinf(r) and within(float(rv[0]), tv) and within(float(rb[0]), tb) \
+                and not within(r, tmse, 2e-6):      # variance and bias^2 each carry their own 1e-6
             emit(ctx, f"C19:{pt.mech}:mse:wrong-value", f"{desc}.mse({pt.value!r}) = {r!r} but E[(M(x)-x)^2] = {K2.fmt(tmse)}", inp)
 
 
@@ -712,7 +726,10 @@ def mono_rel(mech, p):
     to ~2^-53 / delta relative (measured: 2e-7 at delta = 1.4e-10, eps = 1e-9); 100x that is allowed, and when it exceeds
     1e-3 the pair is skipped (counted)."""
     if mech == "GaussianAnalytic":
-        return max(1e-9, 3e-15 / p["delta"])
+        # the same for delta close to 1: the objective then resolves 1 - delta only to 2^-53 (measured 5e-6 at
+        # 1 - delta = 8e-12)
+        # and for tiny eps: the objective sees eps only through e^eps - 1, resolved to 2^-53 / eps (measured 1e-6 at 1e-9)
+        return max(1e-9, 5e-15 / max(1e-300, min(p["delta"], 1.0 - p["delta"])), 1e-13 / p["epsilon"])
     return 1e-9
 
 
